@@ -67,6 +67,8 @@ func limitRun(r *simrt.Run, tier string, withTimeout bool) {
 	blockedProbe := t.Bool()
 	releaseEarly := t.Bool()
 	probeTimeout := []time.Duration{0, 10 * time.Millisecond, 2 * time.Second}[t.Intn(3)]
+	racingLate := t.Intn(4) // 0 = no racing-late-borrower phase
+	raceTimeout := []time.Duration{time.Hour, 2 * time.Second, 10 * time.Millisecond, 0}[t.Intn(4)]
 	w.n = n
 	w.g = newGauge(r, w.comp, n)
 	if withTimeout {
@@ -157,7 +159,159 @@ func limitRun(r *simrt.Run, tier string, withTimeout bool) {
 			return
 		}
 	}
+	for i := 0; i < racingLate; i++ {
+		if !w.racingLateBorrower(i, raceTimeout) {
+			return
+		}
+	}
 	r.Probe("oracle")
+}
+
+// racingLateBorrower: with every permit out, a Borrow beyond the cap is started and the holders give all
+// permits back while it is still on its way (the tape decides how far it got).  At the following quiescence
+// the number of outstanding permits is known exactly: a Borrow that has not returned is blocked waiting, so
+// it holds nothing.  With nothing outstanding a Return must be refused with ErrLimitReturn - also while a
+// waiter is parked - and the capacity stays n.
+func (w *limWorld) racingLateBorrower(round int, timeout time.Duration) bool {
+	r := w.r
+	for i := 0; i < w.n; i++ {
+		if !w.try() {
+			r.Fail(w.comp+"/capacity-leak", "%s racing round %d: with no holder left only %d of %d permits could be borrowed", w.comp, round, i, w.n)
+			return false
+		}
+		w.g.enter("main")
+	}
+	var berr error
+	admitted := false
+	bt := r.Go("racing-borrower", func() {
+		if w.timeout {
+			berr = w.tl.Borrow(timeout)
+		} else {
+			w.lim.Borrow()
+		}
+		if berr == nil {
+			admitted = true
+			w.g.enter("racing-borrower")
+		}
+	})
+	if r.Tape.Bool() {
+		r.Yield()
+	}
+	for i := 0; i < w.n; i++ {
+		if !w.release("main") {
+			return false
+		}
+	}
+	// injected stalls (each at most 2 s, one per scheduling point) may hold the borrower anywhere on its way;
+	// ten minutes later it has returned or is parked waiting
+	r.Sleep(10 * time.Minute)
+	r.Quiesce()
+	if r.Failed() {
+		return false
+	}
+	outstanding := 0
+	switch {
+	case bt.Done() && admitted:
+		outstanding = 1
+		r.Probe("racing-borrower-admitted")
+	case bt.Done():
+		if berr != syncx.ErrTimeout {
+			r.Fail(w.comp+"/bad-refusal", "Borrow(%v) returned %v, neither nil nor ErrTimeout", timeout, berr)
+			return false
+		}
+		r.Probe("racing-borrower-timed-out")
+	default:
+		// still inside Borrow at quiescence: parked although permits are free (it missed every wake-up)
+		r.Probe("waiter-parked-with-free-capacity")
+	}
+	if outstanding == 0 {
+		var err error
+		rt := r.Go("over-return", func() { err = w.ret() })
+		if !r.JoinTimeout(checkBudget, rt) {
+			r.Fail(w.comp+"/over-return-blocked", "%s: Return with nothing borrowed did not return (no error reported)", w.comp)
+			return false
+		}
+		r.Sleep(10 * time.Minute)
+		r.Quiesce()
+		if r.Failed() {
+			return false
+		}
+		if !bt.Done() || !admitted {
+			// nobody was admitted meanwhile: the Return had nothing to give back
+			if err != syncx.ErrLimitReturn {
+				r.Fail(w.comp+"/over-return-not-reported", "%s: Return with nothing borrowed (a Borrow parked: %v) returned %v, want ErrLimitReturn", w.comp, !bt.Done(), err)
+				return false
+			}
+			r.Probe("over-return-reported")
+			if !bt.Done() {
+				r.Probe("over-return-with-parked-waiter")
+			}
+		} else {
+			// the borrower was admitted while the Return ran: it may have taken its permit before the Return
+			outstanding = 1
+			if err == nil {
+				outstanding = 0 // the Return took the borrower's permit away: misuse, stop judging this object
+				return true
+			}
+		}
+	}
+	// exactly n - outstanding permits are left
+	took := 0
+	for i := 0; i < w.n-outstanding; i++ {
+		if !w.try() {
+			r.Fail(w.comp+"/capacity-leak", "%s racing round %d: %d permit(s) outstanding, only %d of the other %d could be borrowed", w.comp, round, outstanding, i, w.n-outstanding)
+			return false
+		}
+		w.g.enter("main")
+		took++
+	}
+	if bt.Done() || !w.timeout {
+		// (a waiter still parked may be woken by nothing here; a blocked Limit.Borrow cannot exist with free permits)
+		if w.try() {
+			w.g.enter("main-extra") // reports cap-exceeded
+			return false
+		}
+		r.Probe("refused-at-cap")
+	}
+	for i := 0; i < took; i++ {
+		if !w.release("main") {
+			return false
+		}
+	}
+	// let a parked waiter finish: it is admitted (permits are free, a Return just signalled) or times out
+	if !r.JoinTimeout(checkBudget+timeout, bt) {
+		if timeout < checkBudget {
+			r.Fail(w.comp+"/stuck", "%s: Borrow(%v) neither admitted nor timed out", w.comp, timeout)
+			return false
+		}
+	}
+	r.Quiesce()
+	if r.Failed() {
+		return false
+	}
+	if bt.Done() && admitted {
+		if !w.release("racing-borrower") {
+			return false
+		}
+	} else if !bt.Done() {
+		// Borrow(1h) still parked with free permits and nobody returning any more: hand it one wake-up
+		if !w.try() {
+			r.Fail(w.comp+"/capacity-leak", "%s racing round %d: no permit although nobody holds one", w.comp, round)
+			return false
+		}
+		w.g.enter("main")
+		if !w.release("main") {
+			return false
+		}
+		if !r.JoinTimeout(checkBudget+timeout, bt) {
+			r.Fail(w.comp+"/stuck", "%s: a parked Borrow(%v) was not admitted after a permit came back", w.comp, timeout)
+			return false
+		}
+		if admitted && !w.release("racing-borrower") {
+			return false
+		}
+	}
+	return !r.Failed()
 }
 
 // capacityCheck runs with no permit outstanding: exactly n permits can be taken.
